@@ -324,8 +324,11 @@ impl Operator for QuantizeLinear {
     }
 
     fn output_types(&self, _ctx: &OutputTypesContext) -> Option<OutputTypeList> {
-        let dtype = self.output_dtype.unwrap_or(DataType::Int8);
-        Some([OutputType::Fixed(ValueType::Tensor(dtype))].into())
+        match self.output_dtype {
+            Some(dtype) => Some([OutputType::Fixed(ValueType::Tensor(dtype))].into()),
+            // If no output type is specified, it is the type of the zero point.
+            None => Some([OutputType::CopyFromInput(2)].into()),
+        }
     }
 
     fn as_infer_shapes(&self) -> Option<&dyn InferShapes> {
